@@ -7,14 +7,14 @@ EXTENDS ModelExpr, Json, IOUtils
 Cases == JsonDeserialize(IOEnv.CASE_FILE)
 Pairs(n) == {p \in (1..n) \X (1..n) : p[1] < p[2]}
 ReallyIs(c) ==
-    LET cv == Curv(c.t) IN
+    LET cv == Curv(c.t, c.sz) IN
     \A p \in Pairs(Len(c.envs)) :
         EvenPair(c.envs[p[1]], c.envs[p[2]]) =>
             /\ (cv \in {0, 1}  => ConvexOn(c.t, c.envs[p[1]], c.envs[p[2]]))
             /\ (cv \in {0, -1} => ConcaveOn(c.t, c.envs[p[1]], c.envs[p[2]]))
 Expected(c) ==
     IF ~Defined(c.t, c.sz) THEN [defined |-> FALSE, len |-> 0, curv |-> 9, vals |-> <<>>, really |-> TRUE]
-    ELSE [defined |-> TRUE, len |-> TLen(c.t, c.sz), curv |-> Curv(c.t),
+    ELSE [defined |-> TRUE, len |-> TLen(c.t, c.sz), curv |-> Curv(c.t, c.sz),
           vals |-> [i \in DOMAIN c.envs |-> Eval(c.t, c.envs[i])], really |-> ReallyIs(c)]
 ASSUME JsonSerialize(IOEnv.OUT_FILE, [res |-> [i \in 1..Len(Cases) |-> Expected(Cases[i])]])
 
